@@ -321,3 +321,11 @@ def as_iterable(items, k: int):
     if k == 6:
         return (x for x in items)
     return items if items else None
+
+
+def one_or_many(values, k: int, many=set):
+    """Arguments typed ``Variable | set[Variable]`` (or ``| list``): a singleton is passed bare every other time."""
+    values = list(values)
+    if len(values) == 1 and k % 2:
+        return values[0]
+    return many(values)
